@@ -427,21 +427,21 @@ class Wire:
         Wire.prepared = []
     
     def rename(self, newname):
-        if (newname in self.parent._wires.keys()):
+        if (newname in self.parent._wires.keys()) and not(self.parent._wires[newname] is self):
             raise Exception('a wire named {} already exist'.format(newname))
         del self.parent._wires[self.name]
         self.name = newname
         self.parent.appendWire(self)
         
     def reparent(self, newparent):
-        if (self.name in newparent._wires.keys()):
+        if (self.name in newparent._wires.keys()) and not(newparent._wires[self.name] is self):
             raise Exception('a wire named {} already exist'.format(self.name))
         del self.parent._wires[self.name]
         self.parent = newparent
         newparent.appendWire(self)
 
     def reparentAndRename(self, newparent, newname):
-        if (newname in newparent._wires.keys()):
+        if (newname in newparent._wires.keys()) and not(newparent._wires[newname] is self):
             raise Exception('a wire named {} already exist'.format(newname))
         del self.parent._wires[self.name]
         self.name = newname
@@ -553,21 +553,21 @@ class BidirWire(Wire):
         Wire.prepared = []
     
     def rename(self, newname):
-        if (newname in self.parent._wires.keys()):
+        if (newname in self.parent._wires.keys()) and not(self.parent._wires[newname] is self):
             raise Exception('a wire named {} already exist'.format(newname))
         del self.parent._wires[self.name]
         self.name = newname
         self.parent.appendWire(self)
         
     def reparent(self, newparent):
-        if (self.name in newparent._wires.keys()):
+        if (self.name in newparent._wires.keys()) and not(newparent._wires[self.name] is self):
             raise Exception('a wire named {} already exist'.format(self.name))
         del self.parent._wires[self.name]
         self.parent = newparent
         newparent.appendWire(self)
 
     def reparentAndRename(self, newparent, newname):
-        if (newname in newparent._wires.keys()):
+        if (newname in newparent._wires.keys()) and not(newparent._wires[newname] is self):
             raise Exception('a wire named {} already exist'.format(newname))
         del self.parent._wires[self.name]
         self.name = newname
